@@ -54,39 +54,54 @@ RECURSIVE StatesFrom(_, _)
 StatesFrom(P, i) == IF i > Len(P.fluents) THEN {<<>>}
                     ELSE {<<v>> \o t : v \in FlDom(P, i), t \in StatesFrom(P, i + 1)}
 \* a grid point: s = state vector aligned with Keys(P), env = parameter valuation
-GridOf(P, scope) == {[s |-> s, env |-> en] : s \in StatesFrom(P, 1), en \in Envs(P, ActNamed(P, scope).params, <<>>)}
+Points(P, scope) == {[s |-> s, env |-> en] : s \in StatesFrom(P, 1), en \in Envs(P, ActNamed(P, scope).params, <<>>)}
+RECURSIVE SetToSeqL(_)
+SetToSeqL(S) == IF S = {} THEN <<>> ELSE LET x == CHOOSE x \in S : TRUE IN <<x>> \o SetToSeqL(S \ {x})
+\* g and h give the same value to every parameter and to every fluent but i
+SameBut(g, h, i) == g.env = h.env /\ \A j \in DOMAIN g.s : j # i => g.s[j] = h.s[j]
+\* The grid with its neighbourhood tables (computed once per problem; points are numbered so
+\* that value tables are plain sequences):
+\*   pts       the points, in some order
+\*   ns        the indices of the non-static fluents
+\*   above[i][k]  the points that differ from point k only in fluent i, where they have a LARGER value
+\*   succ[i][k]   the point that differs from point k only in fluent i, with value + 1 (0: none)
+GridOf(P, scope) ==
+   LET pts == TLCEval(SetToSeqL(Points(P, scope)))
+       N == Len(pts)
+       ns == NonStatic(P)
+   IN [pts |-> pts, ns |-> ns,
+       above |-> TLCEval([i \in ns |-> [k \in 1..N |->
+                    {h \in 1..N : SameBut(pts[k], pts[h], i) /\ RLt(pts[k].s[i], pts[h].s[i])}]]),
+       succ |-> TLCEval([i \in ns |-> [k \in 1..N |->
+                    LET hs == {h \in 1..N : SameBut(pts[k], pts[h], i) /\ pts[h].s[i] = RAdd(pts[k].s[i], ONE)}
+                    IN IF hs = {} THEN 0 ELSE CHOOSE h \in hs : TRUE]])]
 
-\* the value table of e on the grid (evaluated once)
-ValTab(P, e, Grid) == LET R == Ctx(P) IN TLCEval([g \in Grid |-> Eval(R, e, g.s, g.env)])
-DefinedOnGrid(V) == \A g \in DOMAIN V : ~IsU(V[g])
-DefinedSomewhere(V) == \E g \in DOMAIN V : ~IsU(V[g])
+\* the value table of e on the grid (evaluated once): V[k] = value of e at point k
+ValTab(P, e, Grid) == LET R == Ctx(P) IN
+   TLCEval([k \in 1..Len(Grid.pts) |-> Eval(R, e, Grid.pts[k].s, Grid.pts[k].env)])
+DefinedOnGrid(V) == \A k \in DOMAIN V : ~IsU(V[k])
+DefinedSomewhere(V) == \E k \in DOMAIN V : ~IsU(V[k])
 
 \* ---------- monotonicity ----------
-\* V = ValTab(P, e, Grid); i = index of the fluent; for all values of the others (g ranges over
-\* the whole grid) and every larger value v of fluent i
-MonotoneV(P, V, i, dir) ==
-   \A g \in DOMAIN V : \A v \in FlDom(P, i) :
-      RLt(g.s[i], v) =>
-         LET h == [g EXCEPT !.s[i] = v]
-             a == V[g]
-             b == V[h]
-         IN IsU(a) \/ IsU(b) \/ (IF dir = "up" THEN RLe(a, b) ELSE RLe(b, a))
-Monotone(P, e, x, dir, Grid) == MonotoneV(P, ValTab(P, e, Grid), FlIdx(P, x), dir)
+\* V = ValTab(P, e, Grid); i = index of the fluent.  For all values of the others (k ranges over
+\* the whole grid) and every larger value of fluent i:
+MonotoneV(Grid, V, i, dir) ==
+   \A k \in DOMAIN V : \A h \in Grid.above[i][k] :
+      IsU(V[k]) \/ IsU(V[h]) \/ (IF dir = "up" THEN RLe(V[k], V[h]) ELSE RLe(V[h], V[k]))
+Monotone(P, e, x, dir, Grid) == MonotoneV(Grid, ValTab(P, e, Grid), FlIdx(P, x), dir)
 \* e takes two different values at two points that differ only in fluent i
-DependsV(P, V, i) == ~(MonotoneV(P, V, i, "up") /\ MonotoneV(P, V, i, "down"))
+DependsV(Grid, V, i) == ~(MonotoneV(Grid, V, i, "up") /\ MonotoneV(Grid, V, i, "down"))
 
 \* ---------- affinity ----------
-Shift(g, i) == [g EXCEPT !.s[i] = RAdd(@, ONE)]
-AffineV(P, V) ==
-   \A g \in DOMAIN V : \A i \in NonStatic(P) : \A j \in NonStatic(P) :
+AffineV(Grid, V) ==
+   \A k \in DOMAIN V : \A i \in Grid.ns : \A j \in Grid.ns :
       i <= j =>
-         LET gi  == Shift(g, i)
-             gj  == Shift(g, j)
-             gij == Shift(gi, j)
-         IN (gi \in DOMAIN V /\ gj \in DOMAIN V /\ gij \in DOMAIN V
-             /\ ~IsU(V[g]) /\ ~IsU(V[gi]) /\ ~IsU(V[gj]) /\ ~IsU(V[gij]))
-            => RAdd(V[gij], V[g]) = RAdd(V[gi], V[gj])
-Affine(P, e, Grid) == AffineV(P, ValTab(P, e, Grid))
+         LET ki  == Grid.succ[i][k]
+             kj  == Grid.succ[j][k]
+             kij == IF ki = 0 THEN 0 ELSE Grid.succ[j][ki]
+         IN (ki # 0 /\ kj # 0 /\ kij # 0 /\ ~IsU(V[k]) /\ ~IsU(V[ki]) /\ ~IsU(V[kj]) /\ ~IsU(V[kij]))
+            => RAdd(V[kij], V[k]) = RAdd(V[ki], V[kj])
+Affine(P, e, Grid) == AffineV(Grid, ValTab(P, e, Grid))
 
 \* ---------- the property: judging one answer of the analysis ----------
 \* ans = [lin |-> BOOLEAN, pos |-> set of fluent names, neg |-> set of fluent names]
@@ -97,14 +112,14 @@ Affine(P, e, Grid) == AffineV(P, ValTab(P, e, Grid))
 \*                                (get_fluents documents the two sets as THE fluents appearing in e; the
 \*                                kind computation treats an absent fluent as unconstrained)
 \*   linear-not-affine            reported linear, but not affine in the fluents
-Violations(P, V, ans) ==
+Violations(P, Grid, V, ans) ==
    IF ~ans.lin THEN {}
    ELSE {<<"pos-only-not-nondecreasing", P.fluents[i].name>> :
-             i \in {k \in NonStatic(P) : P.fluents[k].name \in ans.pos \ ans.neg /\ ~MonotoneV(P, V, k, "up")}}
+             i \in {k \in Grid.ns : P.fluents[k].name \in ans.pos \ ans.neg /\ ~MonotoneV(Grid, V, k, "up")}}
         \cup {<<"neg-only-not-nonincreasing", P.fluents[i].name>> :
-             i \in {k \in NonStatic(P) : P.fluents[k].name \in ans.neg \ ans.pos /\ ~MonotoneV(P, V, k, "down")}}
+             i \in {k \in Grid.ns : P.fluents[k].name \in ans.neg \ ans.pos /\ ~MonotoneV(Grid, V, k, "down")}}
         \cup {<<"absent-but-dependent", P.fluents[i].name>> :
-             i \in {k \in NonStatic(P) : P.fluents[k].name \notin ans.pos \cup ans.neg /\ DependsV(P, V, k)}}
-        \cup (IF AffineV(P, V) THEN {} ELSE {<<"linear-not-affine", "">>})
-Sound(P, e, Grid, ans) == Violations(P, ValTab(P, e, Grid), ans) = {}
+             i \in {k \in Grid.ns : P.fluents[k].name \notin ans.pos \cup ans.neg /\ DependsV(Grid, V, k)}}
+        \cup (IF AffineV(Grid, V) THEN {} ELSE {<<"linear-not-affine", "">>})
+Sound(P, e, Grid, ans) == Violations(P, Grid, ValTab(P, e, Grid), ans) = {}
 =============================================================================
